@@ -461,6 +461,56 @@ def signTies (pts : List (Rat × Rat)) : Bool :=
        decide (rabs (beta * gamma - alpha * delta) ≤ (1 / 10000000 : Rat) * (beta * ga + rabs alpha * de)) ||
        decide (rabs (K * delta - alpha * gamma) ≤ (1 / 10000000 : Rat) * (K * de + rabs alpha * ga)))
 
+/-! ### `_update_gls_estimate` (one step of the GLS fixed-point iteration) -/
+
+/-- `np.sum(f(i, j) * inverse_cov)` for an index-dependent factor: the sum over all cells `[r, c]` of `f r c w` -/
+def sum2 (W : List (List Rat)) (f : Nat → Nat → Rat → Rat) : Rat :=
+  (W.zipIdx.map fun rw => (rw.1.zipIdx.map fun cw => f rw.2 cw.2 cw.1).sum).sum
+
+structure GlsUpd where
+  change : Rat
+  slope : Rat
+  intercept : Rat
+  varSlope : Rat
+deriving Repr, DecidableEq
+
+/-- the five sums `kappa, lam, mu, nu, xi` of `_update_gls_estimate` (`i[r, c] = r + 1`, `j[r, c] = c + 1`,
+    `mean_squared_displacements * inverse_cov` broadcasts along the LAST axis: `msd[c] * W[r, c]`) -/
+def glsKappa (W : List (List Rat)) : Rat := sum2 W fun _ _ w => w
+def glsLam (W : List (List Rat)) : Rat := sum2 W fun r _ w => ((r : Rat) + 1) * w
+def glsMu (W : List (List Rat)) : Rat := sum2 W fun r c w => ((r : Rat) + 1) * ((c : Rat) + 1) * w
+def glsNu (W : List (List Rat)) (msd : List Rat) : Rat := sum2 W fun _ c w => msd.getD c 0 * w
+def glsXi (W : List (List Rat)) (msd : List Rat) : Rat := sum2 W fun r c w => ((r : Rat) + 1) * msd.getD c 0 * w
+
+/-- `_update_gls_estimate(inverse_cov, mean_squared_displacements, intercept, slope)` -/
+def glsUpdate (W : List (List Rat)) (msd : List Rat) (a b : Rat) : GlsUpd :=
+  let kappa := glsKappa W
+  let lam := glsLam W
+  let mu := glsMu W
+  let nu := glsNu W msd
+  let xi := glsXi W msd
+  let inv := 1 / (kappa * mu - lam * lam)
+  let a' := (mu * nu - lam * xi) * inv
+  let b' := (kappa * xi - lam * nu) * inv
+  ⟨rabs (a' - a) + rabs (b' - b), b', a', kappa / (kappa * mu - lam * lam)⟩
+
+
+/-- `_msd_diffusion_covariance(K, n, intercept, slope)` as a matrix -/
+def covMatrix (K : Nat) (n a b : Rat) : List (List Rat) :=
+  (List.range K).map fun r => (List.range K).map fun c => covEntry n a b (c + 1) (r + 1)
+
+/-- tolerance scales of `glsUpdate` `(slope, intercept, varSlope)`: absolute values instead of differences, times the
+    cancellation factor of the denominator (correspondence check only) -/
+def glsUpdateAbs (W : List (List Rat)) (msd : List Rat) : Rat × Rat × Rat :=
+  let kappa := sum2 W fun _ _ w => rabs w
+  let lam := sum2 W fun r _ w => ((r : Rat) + 1) * rabs w
+  let mu := sum2 W fun r c w => ((r : Rat) + 1) * ((c : Rat) + 1) * rabs w
+  let nu := sum2 W fun _ c w => rabs (msd.getD c 0 * w)
+  let xi := sum2 W fun r c w => ((r : Rat) + 1) * rabs (msd.getD c 0 * w)
+  let den := rabs (glsKappa W * glsMu W - glsLam W * glsLam W)
+  let cancel := (kappa * mu + lam * lam) / den
+  ((kappa * xi + lam * nu) / den * cancel, (mu * nu + lam * xi) / den * cancel, kappa / den * cancel)
+
 /-! ### tolerance scales (DESIGN §2.2) — the same formulas with every subtraction replaced by an
     addition of absolute values; used only by the correspondence check to bound the rounding error of
     the implementation's doubles in a conditioning-aware way.  No theorem is about them. -/
@@ -592,6 +642,7 @@ def ensembleVarScales (tracks : List (List MsdRow)) (lags : List Int) : List Rat
   `c09.olsauto [frames] [xs] dt`          → `ok value var lv numLags  sValue sVar sLv` (`max_lag=None`) | `tie`
   `c09.ensolsauto [f;…] [x;…] dt`         → `ok value var lv numLags  sValue sVar sLv` | `tie`
   `c09.optraw le|inf|nan n`               → `ok numSlope numIntercept`  (`optimal_points`) | `tie`
+  `c09.glsupd [row;row;…] [msd] a b`      → `ok change slope intercept varSlope  sSlope sIntercept sVar` (`_update_gls_estimate`)
   (`tie`: a sign / `floor` the code branches on is decided by the last bits of a double: nothing to compare) -/
 def handle : List String → Option String
   | ["c09.msd", fs, xs, L] => do
@@ -704,6 +755,17 @@ def handle : List String → Option String
     let n ← nat? n
     let le ← (if le == "inf" then some LocErr.inf else if le == "nan" then some LocErr.nan else (rat? le).map LocErr.fin)
     some (showExcept (fun (k : Nat × Nat) => toString k.1 ++ " " ++ toString k.2) (optimalPointsT le n))
+  | ["c09.glsupd", W, msd, a, b] => do
+    let W ← ratListList? W
+    let msd ← ratList? msd
+    let a ← rat? a
+    let b ← rat? b
+    if W.length ≠ msd.length ∨ W.any (fun row => row.length != msd.length) then none
+    else if glsKappa W * glsMu W - glsLam W * glsLam W = 0 then some "singular"
+    else
+      let u := glsUpdate W msd a b
+      let s := glsUpdateAbs W msd
+      some ("ok " ++ showRats [u.change, u.slope, u.intercept, u.varSlope, s.1, s.2.1, s.2.2])
   | _ => none
 
 end Verif.C09
